@@ -243,6 +243,44 @@ func c13Table(ss []ha.SessionState) map[string]uint64 {
 	return m
 }
 
+// c13Fields: the first field in which two records of one session differ ("" = none).
+func c13Fields(want, got []ha.SessionState) (id, field string) {
+	wm := map[string]ha.SessionState{}
+	for _, s := range want {
+		wm[s.SessionID] = s
+	}
+	sort.Slice(got, func(i, j int) bool { return got[i].SessionID < got[j].SessionID })
+	for _, g := range got {
+		x, ok := wm[g.SessionID]
+		if !ok || x.BytesIn != g.BytesIn {
+			continue // presence and version are judged by c13Diff
+		}
+		switch {
+		case x.SubscriberID != g.SubscriberID:
+			return g.SessionID, "subscriber_id"
+		case x.MAC != g.MAC:
+			return g.SessionID, "mac"
+		case x.IP != g.IP:
+			return g.SessionID, "ip"
+		case x.IPv6 != g.IPv6:
+			return g.SessionID, "ipv6"
+		case x.Gateway != g.Gateway:
+			return g.SessionID, "gateway"
+		case x.VLAN != g.VLAN || x.STag != g.STag || x.CTag != g.CTag:
+			return g.SessionID, "vlan-tags"
+		case x.QoSProfile != g.QoSProfile || x.DownloadRateBps != g.DownloadRateBps || x.UploadRateBps != g.UploadRateBps:
+			return g.SessionID, "qos"
+		case x.SessionType != g.SessionType || x.ISPID != g.ISPID || x.Username != g.Username:
+			return g.SessionID, "session-metadata"
+		case x.State != g.State || x.WalledGarden != g.WalledGarden:
+			return g.SessionID, "state"
+		case x.BytesOut != g.BytesOut:
+			return g.SessionID, "bytes_out"
+		}
+	}
+	return "", ""
+}
+
 func c13Show(m map[string]uint64) string {
 	var ks []string
 	for k := range m {
@@ -322,6 +360,9 @@ func (w *c13world) checkSnapshot() {
 		c.Fail("snapshot", "snapshot/"+d+"/"+w.why(id),
 			"immediately after a completed full sync the standby's table %s differs from the snapshot the response carried %s (session %s: %s; its last delete on the active: %s)",
 			c13Show(table), c13Show(snap), id, d, w.why(id))
+	} else if id, f := c13Fields(msg.Sessions, w.sbStore.GetAllSessions()); f != "" {
+		c.Fail("snapshot", "snapshot/record-differs/"+f,
+			"immediately after a completed full sync the standby's record of session %s differs from the snapshot's in %s (same version)", id, f)
 	}
 }
 
@@ -535,6 +576,21 @@ func c13Run(c *sim.Ctx) {
 		w.nextVer++
 		st := &ha.SessionState{SessionID: id, SubscriberID: "sub-" + id, MAC: "02:00:00:00:00:0" + id[len(id)-1:], IP: "10.0.0." + id[len(id)-1:],
 			SessionType: "ipoe", State: "active", BytesIn: w.nextVer}
+		// optional fields differ from one mutation to the next: a full PPPoE profile, a bare
+		// IPoE session, or something in between
+		if v := w.nextVer * 2654435761 >> 7; v&1 != 0 {
+			st.SessionType, st.Username, st.ISPID = "pppoe", fmt.Sprintf("user%d@isp-a", w.nextVer), "isp-a"
+			if v&2 != 0 {
+				st.QoSProfile, st.DownloadRateBps, st.UploadRateBps = "premium", 1_000_000_000, 100_000_000
+			}
+			if v&4 != 0 {
+				st.IPv6, st.Gateway = fmt.Sprintf("2001:db8::%x", w.nextVer), "10.0.0.1"
+			}
+			if v&8 != 0 {
+				st.STag, st.CTag, st.VLAN = 100, uint16(200+w.nextVer%50), 7
+			}
+			st.BytesOut = w.nextVer * 3
+		}
 		if kind == "put" {
 			if err := w.aStore.PutSession(st); err != nil {
 				panic(err)
@@ -678,6 +734,9 @@ func c13Run(c *sim.Ctx) {
 		c.Fail("converge", "converge/"+d+"/"+w.why(id),
 			"after %v with no faults, the link up and the active quiet, standby holds %s but the active holds %s (session %s: %s; %s; full syncs completed: %d)",
 			bound, c13Show(st), c13Show(at), id, d, w.why(id), w.syncs)
+	} else if id, f := c13Fields(w.aStore.GetAllSessions(), w.sbStore.GetAllSessions()); f != "" {
+		c.Fail("converge", "converge/record-differs/"+f,
+			"after %v with no faults, the link up and the active quiet, the standby's record of session %s differs from the active's in %s (same version)", bound, id, f)
 	}
 	if w.streamUp() {
 		w.checkStream(w.curStream, true)
@@ -696,7 +755,7 @@ func init() {
 			"ha.HASyncer standby side (standbyLoop, performFullSync, connectToStream, handleSSEData, waitReconnect back-off)", "ha.InMemorySessionStore",
 			"net/http.Client (timeouts, body wrappers), http.ServeMux routing, encoding/json"},
 		Stub:         []string{"TCP/HTTP transport and server (scn.vhNet runs the real handlers in scheduler tasks; no sockets, no net/http server)"},
-		Rule:         "cases: 6-32 add/update/delete/sleep ops over <=4 session ids on the active with stream cuts (between and inside flushes), lost or late full-sync/stream responses, partition (stall or reset) and heal, half-open streams (the server side learns at its next flush or after a keepalive/reset delay), a refused put/delete of the standby's own store, a change pushed at the instant a stream attaches, stalled goroutines (stall_pm), standby crash+restart, then a fault-free quiet period of 2*(back-off max + request timeout) + heartbeat; non-trivial = >=3 completed operations and (a fault fired or >2 context switches); distinct = distinct (case hash, schedule fingerprint)",
+		Rule:         "cases: 6-32 add/update/delete/sleep ops over <=4 session ids (each mutation with its own mix of optional fields; tables are compared by presence, version and, for equal versions, field by field) on the active with stream cuts (between and inside flushes), lost or late full-sync/stream responses, partition (stall or reset) and heal, half-open streams (the server side learns at its next flush or after a keepalive/reset delay), a refused put/delete of the standby's own store, a change pushed at the instant a stream attaches, stalled goroutines (stall_pm), standby crash+restart, then a fault-free quiet period of 2*(back-off max + request timeout) + heartbeat; non-trivial = >=3 completed operations and (a fault fired or >2 context switches); distinct = distinct (case hash, schedule fingerprint)",
 		QuickRuns:    8000,
 		ThoroughRuns: 300000,
 		Assumptions: []string{"a full synchronisation is complete when performFullSync has returned nil, observed as the standby issuing its stream request",
